@@ -18,11 +18,36 @@
 #include "fileio/FileIo.h"
 
 extern "C" { int g_nchars, g_eof; unsigned g_nwrites; int g_errors; uint32_t *g_p_low, *g_p_high; }
+#if READER == 8
+/* position-aware file contract (the Amiga hunk reader seeks backwards and forwards): a file of g_len arbitrary bytes,
+   g_pos the read position; a read at or beyond the end returns EOF and raises the end-of-file indicator, a seek clears it */
+extern "C" { long g_len, g_pos; }
+extern "C" int getc(FILE *f)
+{
+  if (g_pos >= g_len) { g_eof = 1; return EOF; }
+  g_pos++;
+  return (nondet_uchar)();
+}
+static long g_file_obj[64];
+extern "C" FILE *fopen(const char *n, const char *m) { return (nondet_int() & 1) ? (FILE *)(void *)&g_file_obj[0] : (FILE *)0; }
+extern "C" int fclose(FILE *f) { return 0; }
+extern "C" long ftell(FILE *f) { return g_pos; }
+extern "C" int feof(FILE *f) { return g_eof; }
+extern "C" int fseek(FILE *__stream, long __off, int __whence)
+{
+  long base = (__whence == SEEK_SET) ? 0 : (__whence == SEEK_CUR) ? g_pos : g_len;
+  if ((1L << 40) < __off) return -1;
+  if (-(1L << 40) > __off) return -1;
+  if (base + __off < 0) return -1;
+  g_pos = base + __off; g_eof = 0;
+  return 0;
+}
+#else
 extern "C" int getc(FILE *f)
 {
   if (g_eof) return EOF;
   g_nchars++; ASSUME(g_nchars < (1 << 28));
-  int c = nondet_int(); ASSUME(c >= -1 && c <= 255);
+  int c = (nondet_int)(); ASSUME(c >= -1 && c <= 255);   /* file bytes are not entered in the replay log: loop-contract proofs have no concrete replay */
   if (c == EOF) g_eof = 1;
   return c;
 }
@@ -32,20 +57,25 @@ extern "C" int fclose(FILE *f) { return 0; }
 /* files shorter than 2 GiB - 512 (the readers keep file offsets in int) */
 extern "C" long ftell(FILE *f) { int v = nondet_int(); ASSUME(v >= -1 && v < 0x7fffffff - 512); return v; }
 extern "C" int fseek(FILE *f, long o, int w) { return 0; }
+#endif
 extern "C" int putc(int c, FILE *f) { return c; }
 extern "C" size_t fwrite(const void *p, size_t s, size_t n, FILE *f) { return n; }
+struct vb16 { unsigned char b[16]; }; struct vb476 { unsigned char b[476]; };
+vb16 nondet_vb16(); vb476 nondet_vb476();
 /* fread contract: stores at most s*n arbitrary bytes into the caller's buffer (the buffer must hold them) */
 extern "C" size_t fread(void *p, size_t s, size_t n, FILE *f)
 {
   OBL(s * n <= __CPROVER_OBJECT_SIZE(p) - __CPROVER_POINTER_OFFSET(p), "C17.readers: fread destination holds size*count bytes");
-  unsigned char *b = (unsigned char *)p;
-  if (s * n > 0) { size_t k = nondet_ull(); ASSUME(k < s * n); b[k] = nondet_uchar(); b[0] = nondet_uchar(); b[s * n - 1] = nondet_uchar(); }
+  /* every byte of the destination is arbitrary (the readers use 16-byte and 476-byte blocks) */
+  if (s * n == 16) *(vb16 *)p = nondet_vb16();
+  else if (s * n == 476) *(vb476 *)p = nondet_vb476();
+  else if (s * n > 0) { unsigned char *b = (unsigned char *)p; size_t k = (nondet_ull)(); ASSUME(k < s * n); b[k] = (nondet_uchar)(); b[0] = (nondet_uchar)(); b[s * n - 1] = (nondet_uchar)(); }
   return n;
 }
 #define printf(...) (g_errors++, 0)
 Memory::Memory() {} Memory::~Memory() {}
 void Memory::clear() {}
-void Memory::write8(uint32_t address, uint8_t data) { g_nwrites++; }
+void Memory::write8(uint32_t address, uint8_t data) { g_nwrites++; CANARY("the reader's data loop is reachable (Memory::write8 called)"); }
 
 #if READER == 1
 #include "fileio/read_bin.cpp"
@@ -66,12 +96,73 @@ void Memory::write8(uint32_t address, uint8_t data) { g_nwrites++; }
 #include "fileio/FileIo.cpp"
 #include "fileio/read_uf2.cpp"
 #define CALL(m) read_uf2("x", &m)
+#elif READER == 8
+#include "fileio/read_amiga.cpp"
+#define CALL(m) read_amiga("x", &m)
+#elif READER == 7 || READER == 9
+#include "core/Symbols.h"
+/* strcmp/strncmp contracts: an arbitrary result (the section-name tests only select which sections are loaded) */
+extern "C" { int g_cmp[4]; }   /* result per compared literal (".strtab", ".vectors", ".data", other), redrawn for every name read */
+static int cmp_slot(const char *b) { return b[1] == 's' ? 0 : b[1] == 'v' ? 1 : b[1] == 'd' ? 2 : 3; }
+extern "C" int strcmp(const char *a, const char *b) { return g_cmp[cmp_slot(b)]; }
+extern "C" int strncmp(const char *a, const char *b, size_t n) { return g_cmp[cmp_slot(b)]; }
+Symbols::Symbols() {} Symbols::~Symbols() {}
+/* Symbols::append contract: the name must be a NUL-terminated string inside the reader's 128-byte buffer */
+extern "C" { const char *g_str_buf; int g_str_nul; }   /* ghost witness: where the last name was NUL terminated */
+int Symbols::append(const char *name, uint32_t address)
+{
+  OBL(name == g_str_buf && g_str_nul >= 0 && (size_t)g_str_nul < __CPROVER_OBJECT_SIZE(name) - __CPROVER_POINTER_OFFSET(name)
+#if READER == 7
+      && name[g_str_nul] == 0
+#endif
+      ,
+      "C17.symbols: a symbol name handed to the symbol table is the NUL-terminated string just read into its buffer");
+  CANARY("the reader's symbol loop is reachable (Symbols::append called)");
+  return 0;
+}
+#include "fileio/FileIo.cpp"
+/* FileIo::get_string_at_offset is replaced by its contract at the call sites of this reader (the body is discharged
+   for every file content and buffers of 2..130 bytes by C17/get_string_at_offset): PRE length >= 2 and the buffer
+   holds length bytes; POST an arbitrary NUL-terminated string in data[0..length-1] */
+static int vs_get_string(char *data, int length, uint64_t offset)
+{
+  OBL(length >= 2 && length <= 130 && (size_t)length <= __CPROVER_OBJECT_SIZE(data) - __CPROVER_POINTER_OFFSET(data), "C17.symbols: get_string_at_offset is called with a buffer that holds length bytes (2..130)");
+  int k = nondet_int(); ASSUME(k >= 0 && k < length);
+#if READER == 7
+  data[0] = nondet_char(); data[k] = nondet_char(); data[length - 1] = 0;
+#endif
+  /* READER 9 (Mach-O): the buffer content is kept abstract (only the ghost witness is set): the name buffer is a
+     local of the command loop's body, which DFCC's assigns-clause inclusion check for the nested symbol loop rejects */
+  g_str_buf = data; g_str_nul = length - 1;
+  g_cmp[0] = (nondet_int)(); g_cmp[1] = (nondet_int)(); g_cmp[2] = (nondet_int)(); g_cmp[3] = (nondet_int)();
+  return 0;
+}
+#define get_string_at_offset(d, l, o) tell(), vs_get_string(d, l, o)
+#if READER == 7
+#include "fileio/read_elf.cpp"
+#else
+#include "fileio/read_macho.cpp"
+#endif
+#undef get_string_at_offset
+static uint8_t g_cpu_type;
+static Symbols *g_syms;
+#if READER == 7
+#define CALL(m) (g_cpu_type = nondet_uchar(), read_elf("x", &m, &g_cpu_type, (nondet_int() & 1) ? g_syms : (Symbols *)0))
+#else
+#define CALL(m) (g_cpu_type = nondet_uchar(), read_macho("x", &m, &g_cpu_type, g_syms))
+#endif
 #endif
 #undef printf
 
 extern "C" void h_reader()
 {
   Memory m; m.low_address = 0; m.high_address = 0;
+#if READER == 7 || READER == 9
+  Symbols syms; g_syms = &syms;
+#endif
+#if READER == 8
+  g_len = nondet_int(); ASSUME(g_len >= 0 && g_len < (1 << 28)); g_pos = 0;
+#endif
   g_nchars = 0; g_eof = 0; g_nwrites = 0; g_errors = 0; g_p_low = &m.low_address; g_p_high = &m.high_address;
   int r = CALL(m);
   OBL(g_nchars >= 0 && g_nchars < (1 << 28), "C17.readers: the reader returns after consuming the file");
